@@ -246,7 +246,7 @@ def _check_registrations(ctx, cg, M, reach_ic):
                           f"`{src(callee)}` handles the {what} of the awaited Deferred but never resumes the generator")
                 continue
             raise AnalysisError(f"C02: callable `{src(callee)}` registered on the awaited object cannot be resolved")
-        ctx.check(is_name(c.func.value, M.p_result), "inline/registration-shape", ctx.construct(iq, c),
+        ctx.check(isinstance(c.func.value, ast.Name) and M.is_yielded(c.func.value.id), "inline/registration-shape", ctx.construct(iq, c),
                   "the registration is not made on the object the generator yielded")
 
 
